@@ -169,6 +169,21 @@ def apply_step(p, step):
                     p.extend(items())
             except Exception:  # noqa: BLE001 - the caller catches and carries on
                 pass
+        elif kind == "interpret":
+            # not an edit: somebody runs an interpreter of their own over the object (as the CLI
+            # does for the members of a stack), plainly or traced
+            import contextlib
+            import io
+
+            from fickling.fickle import Interpreter
+            from fickling.tracing import Trace
+
+            it = Interpreter(p, first_variable_id=step[1], result_variable=f"result{step[1]}")
+            if step[2]:
+                with contextlib.redirect_stdout(io.StringIO()):
+                    Trace(it).run()
+            else:
+                it.to_ast()
         elif kind == "pop":
             if n:
                 p.pop(step[1] % n)
@@ -197,7 +212,7 @@ def apply_step(p, step):
                 )
         else:
             raise ValueError(step)
-    except (IndexError, ValueError, TypeError, KeyError, NotImplementedError, AttributeError):
+    except (IndexError, ValueError, TypeError, KeyError, NotImplementedError, AttributeError, RecursionError):
         pass
     return p
 
@@ -387,6 +402,18 @@ def _machine(res, holder):
             if msg:
                 self._fail(msg)
             self._edit(("extend_fails", ss, how, iadd))
+            self.history.append(("read", v))
+            self.nontrivial = True
+            msg = compare(self.p, v) or compare_sibling(self.sib, v)
+            if msg:
+                self._fail(msg)
+
+        @rule(k=st.integers(1, 5), traced=st.booleans(), v=st.sampled_from(VIEWS), edit_first=st.booleans(), s=st.one_of(specs, structural))
+        def interpret(self, k, traced, v, edit_first, s):
+            if edit_first:
+                self._edit(("append", s))  # so that no view is cached when the interpreter runs
+            self.history.append(("interpret", k, traced))
+            apply_step(self.p, ("interpret", k, traced))
             self.history.append(("read", v))
             self.nontrivial = True
             msg = compare(self.p, v) or compare_sibling(self.sib, v)
